@@ -234,7 +234,7 @@ impl Message {
             4 => RDAStatus::Standby,
             8 => RDAStatus::Restart,
             16 => RDAStatus::Operate,
-            32 => RDAStatus::Spare,
+            32 | 64 => RDAStatus::Spare,
             _ => panic!("Invalid RDA status: {}", self.rda_status),
         }
     }
